@@ -35,7 +35,13 @@ MCSinkPats  == { <<Tok("lit", <<47>>)>>,                                        
                  \*  re.compile('/(a|b)/(\d+)', re.I)      unnamed groups only, IGNORECASE
                  <<Tok("flags", <<105>>), Tok("lit", <<47>>), Tok("ualt", <<97, 124, 98>>), Tok("lit", <<47>>), Tok("udigits", <<>>)>> }
 (* the re-registration instance: every 3-call history over these (A, B, A with an overlapping B in between) *)
-RSinkPats   == { <<Tok("lit", <<47>>)>>, <<Tok("lit", <<47, 97>>)>>, <<Tok("lit", <<47, 97, 47>>), Tok("digits", <<105, 100>>)>>,
+RSinkPats   == { <<Tok("lit", <<47>>)>>, <<Tok("lit", <<47, 97>>)>>,
+                 <<Tok("flags", <<105>>), Tok("lit", <<47, 97, 47>>), Tok("digits", <<105, 100>>)>> }
+(* the reduced two-call export (quick): six of the ten sink prefixes *)
+QSinkPats   == { <<Tok("lit", <<47>>)>>, <<Tok("lit", <<47, 97>>)>>,
+                 <<Tok("lit", <<47>>), Tok("seg", <<120>>), Tok("lit", <<47>>), Tok("ualt", <<98, 124, 49>>)>>,
+                 <<Tok("lit", <<47, 97, 47>>), Tok("digits", <<105, 100>>), Tok("optrest", <<>>)>>,
+                 <<Tok("lit", <<47, 97>>), Tok("optndig", <<47, 124, 105, 100>>), Tok("lit", <<47>>), Tok("seg", <<120>>)>>,
                  <<Tok("flags", <<105>>), Tok("lit", <<47, 97, 47>>), Tok("digits", <<105, 100>>)>> }
 RStaticPrefixes == { <<47, 97>> }
 StaticSpellings == {[prefix |-> p, sl |-> b] : p \in StaticPrefixes, b \in BOOLEAN} \ {[prefix |-> <<47, 97, 47, 98>>, sl |-> TRUE]}
@@ -64,8 +70,7 @@ MCPaths == {PathOf(ss) : ss \in UNION {[1..k -> Segs] : k \in 1..2}}
                   PathOf(<<<<97>>, <<>>, <<98>>>>),       \*  /a//b
                   PathOf(<<<<>>, <<97>>, <<98>>>>),       \*  //a/b
                   \* the other case: match only thanks to IGNORECASE
-                  PathOf(<<<<65>>>>), PathOf(<<<<65>>, <<49>>>>), PathOf(<<<<65>>, <<98>>>>), PathOf(<<<<65>>, <<49>>, <<98>>>>),
-                  PathOf(<<<<97>>, <<66>>>>) }            \*  /A  /A/1  /A/b  /A/1/b  /a/B
+                  PathOf(<<<<65>>>>), PathOf(<<<<65>>, <<49>>>>), PathOf(<<<<65>>, <<98>>>>) }     \*  /A  /A/1  /A/b
 (* reduced pools for the quick exhaustive two-call export *)
 QTemplates == { <<Lit(<<97>>), Var(<<120>>)>>, <<Lit(<<97>>), Lit(<<98>>)>>, <<Var(<<121>>)>> }    \*  /a/{x}  /a/b  /{y}
 QMethods   == {"GET", "OPTIONS"}
